@@ -307,6 +307,66 @@ func buildC15(tier string) *core.Plan {
 				c15CLI(c, base, target, "yaml", "json", "yaml")
 			}
 		}}
+	// a base (and a target) that inherit from parent layers: bkld must diff what the files EVALUATE to
+	inheritTargets := []any{
+		map[string]any{"x": 1, "l": []any{1, 2}, "y": 2},            // exactly what the layered base evaluates to
+		map[string]any{"x": 1, "l": []any{1, 2}, "y": 3},            // one key of the upper layer changed
+		map[string]any{"x": 5, "l": []any{1, 2}, "y": 2},            // one key of the parent layer changed
+		map[string]any{"l": []any{1, 2}, "y": 2},                    // a key of the parent layer removed
+		map[string]any{"x": 1, "l": []any{2}, "y": 2},               // a list entry of the parent layer removed
+		map[string]any{"x": 1, "l": []any{1, 2, 3}, "y": 2, "z": 0}, // additions
+	}
+	inheritSpace := core.Space{Name: "cli-base-with-parent-layers", N: int64(len(inheritTargets)) * 2, Chunk: 1,
+		Desc: func(i int64) any { return map[string]any{"target": inheritTargets[i/2], "base_inherits_by": []string{"filename", "$parent"}[i%2]} },
+		Run: func(c *core.Ctx, i int64) {
+			target := inheritTargets[i/2]
+			dir := scratchDir()
+			defer os.RemoveAll(dir)
+			baseName := "b.c.yaml"
+			writeDoc(dir, "b.yaml", "yaml", map[string]any{"x": 1, "l": []any{1}})
+			if i%2 == 0 {
+				writeDoc(dir, "b.c.yaml", "yaml", map[string]any{"y": 2, "l": []any{2}})
+			} else {
+				baseName = "q.yaml"
+				writeDoc(dir, "q.yaml", "yaml", map[string]any{"$parent": "b", "y": 2, "l": []any{2}})
+			}
+			// the target inherits too: t.yaml holds everything but y
+			tl := core.Clone(target).(map[string]any)
+			ty, hasY := tl["y"]
+			delete(tl, "y")
+			writeDoc(dir, "t.yaml", "yaml", tl)
+			tu := map[string]any{}
+			if hasY {
+				tu["y"] = ty
+			}
+			writeDoc(dir, "t.u.yaml", "yaml", tu)
+			wit := fmt.Sprintf("cli inherited base %s => %s", baseName, core.Canon(target))
+			c.Eval()
+			c.Trans(3)
+			os.MkdirAll(filepath.Join(dir, "out"), 0o755)
+			so, se, code, err := runTool(dir, "bkld", "-o", "out/layer.yaml", baseName, "t.u.yaml")
+			c.Validated()
+			c.Nontrivial()
+			if err != nil || code != 0 {
+				c.Fail("cli-round-trip", "bkld-fails", wit, map[string]any{"stderr": se, "stdout": so, "exit": code})
+				return
+			}
+			so, se, code, _ = runTool(dir, "bkl", "-f", "json", baseName, "out/layer.yaml")
+			if code != 0 {
+				lb, _ := os.ReadFile(filepath.Join(dir, "out", "layer.yaml"))
+				c.Outcome("CLI-LAYER-REJECTED")
+				c.Fail("cli-round-trip", "layer-rejected", wit, map[string]any{"stderr": se, "layer": string(lb)})
+				return
+			}
+			got, perr := c14ParseText("json", so)
+			if perr != nil || !core.EqualLoose(got, target) {
+				lb, _ := os.ReadFile(filepath.Join(dir, "out", "layer.yaml"))
+				c.Outcome("CLI-NOT-REPRODUCED")
+				c.Fail("cli-round-trip", "target-not-reproduced", wit, map[string]any{"stdout": so, "layer": string(lb)})
+				return
+			}
+			c.Outcome("cli-reproduced")
+		}}
 	nrt := int64(len(refTargets))
 	refSpace := core.Space{Name: "cli-inputs-with-references", N: int64(len(refBases)) * nrt, Chunk: 1,
 		Desc: func(i int64) any { return map[string]any{"base": refBases[i/nrt], "target": refTargets[i%nrt]} },
@@ -360,7 +420,7 @@ func buildC15(tier string) *core.Plan {
 			c15CLI(c, numBase, numTargets[i/27], fm[i%3], fm[(i/3)%3], fm[(i/9)%3])
 		}}
 	return &core.Plan{
-		Spaces: []core.Space{pairs, listPairs, cli, refSpace, numSpace, kindSpace, dollarSpace},
+		Spaces: []core.Space{pairs, listPairs, cli, refSpace, numSpace, kindSpace, dollarSpace, inheritSpace},
 		Rule:   "every ordered pair (base, target) of map-rooted, null-free, $-free trees up to N nodes over keys {a,b,l} and scalars {1,2,x}; every pair of lists of <=2 (thorough 3) entries drawn from scalars, sub-lists and maps where one is a subset of another; CLI round trips in format mixes; non-trivial = base differs from target",
 		Assumptions: []string{"in-process runs use cmd/bkld/diff.go copied from /repo's working tree at build time (package clause rewritten, fatal() panics), driven exactly like cmd/bkld/main.go; the CLI space runs the real binaries",
 			"the emitted layer is applied as a second input (`bkl base layer`), where its $match: {} selects the base document"},
